@@ -42,6 +42,9 @@ def apply_op(U, op, letters):
             ad["tag"] = tag
         fn = build.value_fn(uu, ad)
         vals = build.ndarray_from_fn(letters[role], build.uitems(uu), fn, float)
+        if letters[role] != list(op["arrays"][role]["letters"]) or ad.get("mem"):
+            # the permuted copy also gets another memory layout than freshly built C order
+            vals = build.with_memory_layout(vals, ad.get("mem") or ("F" if len(letters[role]) % 2 else "T"))
         return fd.FlodymArray(dims=build.dimset(uu, letters[role]), values=vals)
 
     if k == "bin":
